@@ -71,7 +71,7 @@ add("C11", "exhaustive exploration of environment answers (hash-iteration orders
     "trusted: getrandom shim (self-tested each run), hook H3 observers; thread schedules are not explored (no synchronisation operations in the library)",
     "DESIGN.md section 4, C11")
 add("C12", "explicit-state exploration of operation histories on the live Parser (cloned per branch) against a fresh parser built from the abstract id -> content map",
-    "Full history trees from the empty parser (alphabet A: 28 operations incl. the CRLF twin of a content, a BOM-prefixed file and a non-canonical path, to depth 3 / 4; alphabet B: 11 operations to depth 4 / 6) and all suffixes of length 2 / 3 from 215 (thorough 612) reachable abstract states; after every transition validate() of the live object must equal validate() of a fresh parser holding the abstract map, and add_file must fail exactly when the model says so.",
+    "Full history trees from the empty parser (alphabet A: 28 operations incl. the CRLF twin of a content, a BOM-prefixed file and a non-canonical path, to depth 3 / 4; alphabet B: 11 operations to depth 4 / 6) and all suffixes of length 2 from 215 (thorough all 622) reachable abstract states, thorough also all suffixes of length 3 from the states with <= 2 files; after every transition validate() of the live object must equal validate() of a fresh parser holding the abstract map, and add_file must fail exactly when the model says so.",
     "trusted: hook H4 (derived Clone) for branching - every violation is re-confirmed by a from-scratch replay without clones; abstract states with one key in two kinds are pruned (C11)",
     "DESIGN.md section 4, C12")
 add("C13", "explicit-state exploration of (observed file, project) states under single-file perturbations of the live parser, differential oracle",
